@@ -162,33 +162,34 @@ func bucket(n int) string {
 	return ">64"
 }
 
+// hash0Job: initialize, then checksum WITHOUT any update call = the empty string split into zero pieces; the reference
+// value is the checksum of the empty string, and a different value is an ordinary failure (std/adler32 and std/sha256
+// used to report 0 / the digest from an all-zero chaining value: fixes/C07-{adler32,sha256}-zero-updates.patch).
 func hash0Job(codec string) job {
 	return func(w *worker) caseResult {
 		var cr caseResult
 		want := refSum(codec, nil)
 		cmd := fmt.Sprintf("proto %s init;sum -", codec)
-		line, _ := runCmd(w.generic, cmd)
-		got := ""
-		if f := strings.Fields(line); len(f) >= 2 {
-			if p := strings.Split(f[1], ";"); len(p) == 2 {
-				got = p[1]
+		for i, d := range []*cdrv.Driver{w.generic, w.simd} {
+			fl := string(d.Flavour)
+			line, _ := runCmd(d, cmd)
+			got := ""
+			if f := strings.Fields(line); len(f) >= 2 {
+				if p := strings.Split(f[1], ";"); len(p) == 2 {
+					got = p[1]
+				}
 			}
-		}
-		cr.ops = append(cr.ops, opLine{"hash0 " + codec, "sum=" + got})
-		if got != want {
-			// the key carries the value reported, so that a zero-call hasher reporting anything else than the
-			// registered quirk value (KNOWN_FINDINGS.txt) is a new, unlisted failure
-			g := got
-			if g == "" {
-				g = "none"
-			} else if len(g) > 16 {
-				g = g[:16]
+			if i == 0 {
+				cr.ops = append(cr.ops, opLine{"hash0 " + codec, "sum=" + got})
 			}
-			cr.fails = append(cr.fails, hlib.Failure{Key: "hash:" + codec + ":zero-update-calls:" + g,
-				Desc:   fmt.Sprintf("%s hasher with no update call reports %s; the %s of the empty string is %s", codec, got, codec, want),
-				Replay: "cdrv: " + cmd + "\n(initialize, then checksum without any update call = the empty string split into zero pieces)"})
+			if got != want {
+				cr.fails = append(cr.fails, hlib.Failure{Key: "hash:" + codec + ":" + fl + ":zero-update-calls:ne-reference",
+					Desc:   fmt.Sprintf("%s hasher (%s build) with no update call reports %q; the %s of the empty string is %s", codec, fl, got, codec, want),
+					Replay: "cdrv: " + cmd + "\nflavour: " + fl + "\n(initialize, then checksum without any update call = the empty string split into zero pieces)\nreference (Go) sum: " + want})
+			}
 		}
 		cr.counts = append(cr.counts, "hash0:"+codec)
+		cr.nontriv = append(cr.nontriv, "hash0|"+codec)
 		return cr
 	}
 }
@@ -218,7 +219,7 @@ func decJob(e encoded, want []byte, class string, chunking string, alt int, lean
 		if members == 0 {
 			members = 1
 		}
-		var lastCmd, lastTrace string
+		var lastCmd string
 		var outDesc string
 		for m := 0; m < members; m++ {
 			cmd := strings.Join(strings.Fields(fmt.Sprintf("run %s %s digest=0 maxout=268435456 %s", e.codec, opts, hlib.Hex(rest))), " ")
@@ -228,7 +229,6 @@ func decJob(e encoded, want []byte, class string, chunking string, alt int, lean
 				status = trunc(line, 120)
 				break
 			}
-			lastTrace = res.Trace
 			if res.Status != "ok" {
 				status = res.Status
 				break
@@ -251,44 +251,18 @@ func decJob(e encoded, want []byte, class string, chunking string, alt int, lean
 		replay := fmt.Sprintf("payload class: %s (%d bytes)\nencoder: %s %s\nflavour: %s\ncdrv: %s\npayload: %s", class, len(want), e.codec, e.setting, fl, trunc(lastCmd, 400000), trunc(hlib.Hex(want), 100000))
 		key := e.codec + ":" + strings.Fields(e.setting + " x")[0]
 		if (e.codec == "lzma" || e.codec == "xz") && (status != "ok" || !bytes.Equal(got.Bytes(), want)) {
-			// Two known defects of std/lzma are keyed by their cause (see KNOWN_FINDINGS.txt): re-run the same
-			// stream without the triggering condition; only if it then decodes correctly is the cause confirmed.
-			rerunStatus := func(o string) (bool, string, string) {
+			// One known defect of std/lzma is keyed by its cause (see KNOWN_FINDINGS.txt): re-run the same stream without the
+			// triggering condition; only if it then decodes correctly is the cause confirmed. (The former second key,
+			// lazy-workbuf:bad-workbuf-length, is repaired by fixes/C05-lzma-short-workbuf-gate.patch: a recurrence is an
+			// ordinary decode-status failure below.)
+			rerun := func(o string) bool {
 				c2 := strings.Join(strings.Fields(fmt.Sprintf("run %s %s digest=0 maxout=268435456 %s", e.codec, o, hlib.Hex(e.data))), " ")
 				_, r2 := runCmd(d, c2)
-				if r2 == nil {
-					return false, "run-failed", ""
-				}
-				if r2.Status != "ok" {
-					return false, r2.Status, r2.Trace
+				if r2 == nil || r2.Status != "ok" {
+					return false
 				}
 				b, _ := hex.DecodeString(strings.TrimPrefix(r2.OutHex, "-"))
-				return bytes.Equal(b, want), "ok", r2.Trace
-			}
-			rerun := func(o string) bool { ok, _, _ := rerunStatus(o); return ok }
-			// lazy-workbuf: the fatal status must come WITHOUT any preceding `$short workbuf` (the decoder never asked),
-			// the stream must decode correctly in one piece with an up-front work buffer, and — when the source was
-			// chunked — the same fatal status must also appear with the source in one piece (the cause is the lazy
-			// work buffer, not the chunking; the chunked run with an up-front buffer may meet the OTHER known defect).
-			lazyConfirmed := func() bool {
-				if !strings.Contains(opts, "work=auto") || status != "#base:_bad_workbuf_length" || strings.Contains(lastTrace, "short_workbuf") {
-					return false
-				}
-				one := dropSrcOpt(opts)
-				if !rerun(strings.Replace(one, "work=auto", "work="+bigWork, 1)) {
-					return false
-				}
-				if one != opts {
-					_, st2, tr2 := rerunStatus(one)
-					return st2 == "#base:_bad_workbuf_length" && !strings.Contains(tr2, "short_workbuf")
-				}
-				return true
-			}
-			if lazyConfirmed() {
-				cr.fails = append(cr.fails, hlib.Failure{Key: "decode:lzma-family:lazy-workbuf:bad-workbuf-length",
-					Desc: fmt.Sprintf("Wuffs %s (%s): a caller that sizes the work buffer from workbuf_len() and grows it on `$short workbuf` gets `#base: bad workbuf length` on a valid stream (%s, payload %s %d bytes): std/lzma writes output (LZMA2 uncompressed chunk / header split across reads) before it ever reports `$short workbuf`; the same stream decodes correctly with a large work buffer", e.codec, fl, e.setting, class, len(want)), Replay: replay})
-				cr.counts = append(cr.counts, "known:lazy-workbuf")
-				return cr
+				return bytes.Equal(b, want)
 			}
 			// unflushed-dst-far-match needs BOTH a chunked source and a destination that is replaced while the stream
 			// is decoded (a match must reach before the start of the current destination buffer). The cause is only
@@ -297,7 +271,7 @@ func decJob(e encoded, want []byte, class string, chunking string, alt int, lean
 			// copy (it is then never replaced: every match stays inside dst.history): a defect of
 			// suspension/resumption on a chunked source fails (b) and is reported under its own key.
 			if strings.Contains(opts, "src=") && !strings.HasPrefix(status, "crash") && !strings.HasPrefix(status, "io-contract") &&
-				rerun(dropSrcOpt(upfront(opts))) && rerun(oneDst(upfront(opts), len(want)+4096)) {
+				rerun(dropSrcOpt(opts)) && rerun(oneDst(opts, len(want)+4096)) {
 				cr.fails = append(cr.fails, hlib.Failure{Key: "decode:lzma-family:unflushed-dst-far-match",
 					Desc: fmt.Sprintf("Wuffs %s (%s) on a valid stream (%s, payload %s %d bytes) ends with %s / wrong bytes when the source arrives in chunks (%s): after a `$short read` the destination buffer still holds bytes of earlier calls, and a match reaching before the start of that buffer is fetched from the wrong place of the workbuf ring (std/lzma lacks the `transformed_history_count - dst.history_position()` correction that std/deflate has); the same stream decodes correctly when supplied in one piece", e.codec, fl, e.setting, class, len(want), status, chunking), Replay: replay})
 				cr.counts = append(cr.counts, "known:unflushed-dst-far-match")
@@ -455,10 +429,6 @@ func dropSrcOpt(opts string) string {
 	}
 	return strings.Join(out, " ")
 }
-
-// upfront: opts with the lazy work-buffer protocol replaced by an up-front buffer (the confirmation runs of one
-// known std/lzma defect must not meet the other one)
-func upfront(opts string) string { return strings.Replace(opts, "work=auto", "work="+bigWork, 1) }
 
 // oneDst: opts with the destination capacity replaced by one buffer of n bytes
 func oneDst(opts string, n int) string {
